@@ -43,7 +43,7 @@ def _tf(prop, tier, seed, replay=None):
 
 
 CHECKS = {
-    'C12': _tf, 'C05': _tf, 'C13': _tf, 'C14': _tf, 'C15': _tf, 'C04': _tf,
+    'C11': _tf, 'C12': _tf, 'C05': _tf, 'C13': _tf, 'C14': _tf, 'C15': _tf, 'C04': _tf,
     'C20': _labels,
     'C19': _nav,
     'C16': _nav,
